@@ -12,7 +12,7 @@
 (* Members are small integers ordered like their address bytes.  Time is an *)
 (* integer number of ticks.                                                 *)
 (***************************************************************************)
-EXTENDS Integers, Sequences, FiniteSets, TLC
+EXTENDS Integers, Sequences, FiniteSets, TLC, RelayerArith
 
 CONSTANTS
   Members,        \* all identities that may ever appear
@@ -42,7 +42,6 @@ Range(s) == { s[i] : i \in DOMAIN s }
 SeqMinus(s, S) == SelectSeq(s, LAMBDA x : x \notin S)
 MemberSet == {proposer} \cup Range(voters)
 
-Threshold(n) == (2 * (n + 1) + 2) \div 3        \* ceil(2(n+1)/3) for n voters and one proposer
 
 (***************************************************************************)
 (* The sign-doc every voted proposal is signed over.                        *)
